@@ -532,6 +532,7 @@ func init() {
 		p := c.args[0].(PtrVal)
 		o := getPath(p.obj.v, p.path).(*OnceObj)
 		if o.done {
+			m.vcAcquire(g, o.vc)
 			return nil, stNext
 		}
 		if !g.atSched {
@@ -545,12 +546,17 @@ func init() {
 		}
 		g.waitFn = nil
 		if o.done {
+			m.vcAcquire(g, o.vc)
 			return nil, stNext
 		}
 		o.running = g
 		m.callClosure(g, c.args[1].(FuncVal), nil, func(Value) {
 			o.done = true
 			o.running = nil
+			if m.race.on {
+				o.vc = vcCopy(m.vcOf(g))
+				m.vcTick(g)
+			}
 			c.deliver(nil)
 		})
 		return nil, stStay
@@ -560,14 +566,20 @@ func init() {
 			return nil, stBlocked
 		}
 		p := c.args[0].(PtrVal)
+		m.atomicSync(g, p, true)
+		m.race.off++
 		v := tWrap(tAdd(m.load(p).(*Term), c.args[1].(*Term)), 32, true)
 		m.store(p, v)
+		m.race.off--
 		return v, stNext
 	})
 	reg("sync/atomic.LoadInt32", func(m *Machine, g *Goroutine, c *callCtx) (Value, stepStatus) {
 		if m.maybePreempt(g) {
 			return nil, stBlocked
 		}
+		m.atomicSync(g, c.args[0].(PtrVal), false)
+		m.race.off++
+		defer func() { m.race.off-- }()
 		return m.load(c.args[0].(PtrVal)), stNext
 	})
 
